@@ -121,6 +121,10 @@ theorem whitespace_outside_root_accepted :
 theorem text_outside_root_illformed :
     (match XmlSpec.parse docJunk with | .error (.illFormed _) => true | _ => false) = true := by decide
 
+/-! F-xml-7 (`xml-ts-format-panic`, FIXED by 62f4e8c): the timestamp codec is a parameter of this model (`Ext.tsParse`);
+the regression facts — `9999-12-31T23:59:59-01:00` is refused by `Timestamp::parse`, and every accepted timestamp can
+be written — are `C14_regression_year10000_*` in `Findings/C14.lean` and `C14_ts_parse_format_total` in `Props/C14.lean`. -/
+
 /-- `<Key a=b>k</Key>` -/
 def docAttr : Bytes := [60, 75, 101, 121, 32, 97, 61, 98, 62, 107, 60, 47, 75, 101, 121, 62]
 
